@@ -125,9 +125,13 @@ class NumeralTerm(Term):
 
 class VariableTerm(Term):
     def __init__(self,s):
-        self.varname = s
+        self.name = s
+        # name used in the generated code; the prefix keeps source variables
+        # apart from Python keywords (True, None) and from the names the
+        # generated code uses itself (ATOM_NIL, query, arg1, doBreak, ...)
+        self.varname = 'V_' + s
     def __str__(self):
-        return self.varname
+        return self.name
     @property
     def variables(self):
         return [ self.varname ]
@@ -135,6 +139,7 @@ class VariableTerm(Term):
 class AnonymousVariableTerm(VariableTerm):
     def __init__(self,num):
         self.num = num
+        self.name = '_'
         self.varname = f'x{self.num+1}'
 
 class ListTerm(Term):
